@@ -474,7 +474,7 @@ func (p *prober) run(batch, procs int) bool {
 var jsKeywords = map[string]bool{"typeof": true, "void": true, "delete": true, "new": true, "await": true, "yield": true, "in": true, "instanceof": true,
 	"function": true, "class": true, "this": true, "if": true, "else": true, "for": true, "while": true, "do": true, "switch": true, "case": true,
 	"return": true, "throw": true, "var": true, "const": true, "export": true, "default": true, "import": true, "with": true, "extends": true, "of": true,
-	"k": true, "m": true, "f": true, "w": true, "C": true, "l": true, "v": true, "break": true}
+	"k": true, "m": true, "f": true, "w": true, "C": true, "l": true, "v": true, "break": true, "next": true}
 
 func isIdent(t string) bool {
 	if t == "" {
@@ -777,11 +777,21 @@ func Run(r *core.Run) {
 		jobs = keep
 		r.Assume("developer run restricted to families " + only)
 	}
+	// the literal generators run side by side with the tree generators
+	doLit := os.Getenv("C01_FAMILIES") == "" || strings.Contains(","+os.Getenv("C01_FAMILIES")+",", ",lit,")
+	litCh := make(chan []litCase, 1)
+	go func() {
+		if doLit {
+			litCh <- genLiterals(r)
+		} else {
+			litCh <- nil
+		}
+	}()
 	trees := genTrees(r, jobs, 2)
 	r.Logf("TLC exported %d tree cases", len(trees))
 	runTrees(r, trees, cfgs)
-
-	if only := os.Getenv("C01_FAMILIES"); only == "" || strings.Contains(","+only+",", ",lit,") {
-		runLiterals(r, cfgs)
+	lits := <-litCh
+	if doLit {
+		runLiterals(r, lits, cfgs)
 	}
 }
